@@ -280,6 +280,23 @@ class ExprMixin:
             if keys is not None:
                 res = lk in keys
                 return self.const(res if opname == "In" else not res, site)
+        if opname in ("In", "NotIn"):
+            # membership of a unit / class / function object in a table keyed by such objects
+            c = r.args[0] if r.op == "DictKeys" else r
+            ident = lambda x: x.op in IDENTITY_OPS
+            same = lambda a, b: a is b or (a.op == b.op and a.attr is not None and a.attr == b.attr and a.op == "Ext")
+            if c.op == "Dict" and not any(k[0] == "**" for k in c.attr):
+                keys_n = [c.args[i] for kd, i in self._dict_key_slots(c) if kd[0] == "n"]
+                has_const = any(kd[0] == "k" for kd in c.attr)
+                lhs = None
+                if ident(l):
+                    lhs = l
+                elif l.op == "BinOp" and l.attr == "Pow" and ident(l.args[0]) and l.args[1].op == "Const" and \
+                        l.args[1].attr not in (0, 1):
+                    lhs = "composite"       # unit ** k (k != 0, 1) is never one of the plain unit objects
+                if lhs is not None and all(ident(k_) for k_ in keys_n) and not has_const:
+                    res = lhs != "composite" and any(same(lhs, k_) for k_ in keys_n)
+                    return self.const(res if opname == "In" else not res, site)
         if opname in ("Eq", "NotEq") and l.op == "Const" and isinstance(l.attr, str) and \
                 r.op in ("Tuple", "List"):
             return self.const(opname == "NotEq", site)
